@@ -749,6 +749,8 @@ func (c *CreateViewStatement) Format(opts FormatOptions) string {
 
 	if c.WithOption != "" {
 		sb.WriteString(f.clauseSep())
+		sb.WriteString(f.kw("WITH"))
+		sb.WriteString(" ")
 		sb.WriteString(f.kw(c.WithOption))
 	}
 
